@@ -148,6 +148,15 @@ pub fn check_rule(c: &RuleCase, st: &mut Stats) -> Result<(), String> {
             (Fwd::OutOfRange, Err(TzError::OutOfRange)) => {
                 st.class("year_guard_out_of_range");
             }
+            (Fwd::Unspecified, r) => {
+                // year outside i32::MIN+2 ..= i32::MAX-2: outside the property's quantifier; only "no panic, and an error is OutOfRange"
+                if let Err(e) = r {
+                    if !matches!(e, TzError::OutOfRange) {
+                        return Err(format!("rule {}: at u={u} (year outside the evaluable range) the error is {e:?}, not OutOfRange", c.rule.spell()));
+                    }
+                }
+                st.class("outside_quantified_years");
+            }
             (e, g) => {
                 return Err(format!("rule {} (class {}): at u={u} expected {e:?}, got {:?}", r.spell(), class.name(), g.as_ref().map(|l| (l.ut_offset(), l.is_dst())).map_err(|e| format!("{e:?}"))));
             }
